@@ -138,6 +138,19 @@ func genC06(g *genCtx) {
 			g.add(&Case{Kind: "compile", NS: m, Expr: s})
 		}
 	}
+	// constructs written one after the other (not nested): the cost of Compile must not double with each of them
+	// (known finding: it does for the step sequence a/(b,c)/(b,c)…, whose operands share the input subtree)
+	for _, hu := range [][2]string{{"a", "/(b,c)"}, {"a", "/(b, c, d)"}, {"a", "/(b)"}, {"a", "/b"}, {"a", "//b"}, {"a", "[b]"}, {"a", "[b][1]"}, {"a", " | b"}, {"a", " or b"},
+		{"a", "[b = 1]"}, {"1", " + 1"}, {"a", "/.."}, {"a", "/b[c or d]"}, {"(a)", "[1]"}, {"a", "/following::b"}, {"a", "[contains(., 'x')]"}, {"a", " = b or a"}} {
+		g.add(&Case{Kind: "cgrowth", Expr: hu[1], Extra: hx(hu[0]) + ";6;12"})
+	}
+	// … and the depth guards count nesting, not length: hundreds of constructs in a row are accepted
+	for _, hu := range [][2]string{{"a", "/(b)"}, {"a", "[b]"}, {"a", " | (b)"}, {"(a)", "/(b)"}, {"a", "[(b)/(c)]"}, {"a", "/b"}, {"a", " or (b)"}, {"1", " + (1)"}, {"a", "[(b)]"}, {"a", " = (b) or a"},
+		{"a", "/(b)/c"}, {"a", "[f(1)]"}, {"a", "[count((b)) = 1]"}} {
+		for _, n := range []int{120, 201, 250} {
+			g.add(&Case{Kind: "compile", Expr: hu[0] + strings.Repeat(hu[1], n)})
+		}
+	}
 	// byte-level stream
 	for i := 0; i < g.scale(20000, 200000); i++ {
 		var s string
@@ -314,7 +327,7 @@ func genC15(g *genCtx) {
 	// p calls position() or last(): the query tree is copied once per reference to the filtered step)
 	dG := Doc{{Depth: 0, Kind: 'r'}, {Depth: 1, Kind: 'e', Name: "a"}, {Depth: 2, Kind: 'e', Name: "b"}, {Depth: 2, Kind: 'e', Name: "b"}, {Depth: 2, Kind: 'e', Name: "b"}}
 	for _, pr := range []string{"[position()=1]", "[last()]", "[last()=3]", "[position() < 4]", "[@k or true()]", "[1]", "[b or not(b)]", "[count(*) = 0]"} {
-		g.add(&Case{Kind: "growth", Doc: dG, Ctx: Ref{1, -1}, Extra: hx(pr) + ";6;12"})
+		g.add(&Case{Kind: "growth", Doc: dG, Ctx: Ref{1, -1}, Expr: pr, Extra: "6;12"})
 	}
 }
 
@@ -675,6 +688,13 @@ func genC17(g *genCtx) {
 			e := fn + "(" + strings.Join(args, ", ") + ")"
 			g.add(&Case{Kind: "compile", Expr: e, Extra: "damaged:missing-args"})
 			g.add(&Case{Kind: "compile", Expr: "a[" + e + "]", Extra: "damaged:missing-args"})
+		}
+	}
+	// node-type tests with an argument they cannot take (only processing-instruction takes one, a string literal)
+	for _, e := range []string{"processing-instruction(1)", "processing-instruction(a)", "text(1)", "text('x')", "node('x')", "node(a)", "comment(a)", "comment('x')", "processing-instruction('x', 'y')",
+		"processing-instruction(", "processing-instruction('x'", "processing-instruction('x',)", "text(", "node(,)", "processing-instruction(@a)", "processing-instruction($v)"} {
+		for _, w := range []string{"%s", "//%s", "a/%s", "a[%s]", "child::%s", "%s/b"} {
+			g.add(&Case{Kind: "compile", Expr: fmt.Sprintf(w, e), Extra: "damaged:node-type-argument"})
 		}
 	}
 	// malformed qualified names
